@@ -306,7 +306,28 @@ fn index_bytes(k: &DbValue, v: &DbValue) -> (String, String) {
 
 // ---------------------------------------------------------------- driver
 
+/// every way of building a float value must keep all 64 bits (NaN payloads, signalling and negative NaNs,
+/// signed zeros, subnormals): the rest of this run compares DbValues built through these constructors, which
+/// would hide a constructor that normalises
+fn construction_keeps_bits(r: &mut Rng, o: &mut Out) {
+    let mut fr = r.fork();
+    for b in float_bits(&mut fr) {
+        let x = f64::from_bits(b);
+        let ways: [(&str, u64); 4] = [
+            ("DbF64::from(f64).to_f64()", DbF64::from(x).to_f64().to_bits()),
+            ("DbValue::from(f64)", match DbValue::from(x) { DbValue::F64(f) => f.to_f64().to_bits(), _ => !b }),
+            ("DbValue::from(Vec<f64>)", match DbValue::from(vec![x]) { DbValue::VecF64(l) if l.len() == 1 => l[0].to_f64().to_bits(), _ => !b }),
+            ("DbValue::F64(..).to_f64()", DbValue::F64(DbF64::from(x)).to_f64().map(|f| f.to_f64().to_bits()).unwrap_or(!b)),
+        ];
+        for (what, got) in ways {
+            o.count("f64:construction-checked", 1);
+            if got != b { o.fail("value-f64-bits-changed", format!("{} changed the bit pattern {:016x} into {:016x}", what, b, got)); }
+        }
+    }
+}
+
 pub fn run(r: &mut Rng, n_random: usize, dir: &str, o: &mut Out) {
+    construction_keeps_bits(r, o);
     let vals = gen_values(r, n_random);
     for v in &vals {
         o.count(&format!("kind:{}", kind(v)), 1);
